@@ -15,6 +15,11 @@ import (
 // sync marker NewFileWriter draws is a function of the plan (seam S4).
 type seededRand struct{ state uint64 }
 
+// Read is //go:norace: under the race build several goroutines may create file
+// writers; the token scheduler runs them one at a time, and the marker is
+// masked out of every compared result there.
+//
+//go:norace
 func (s *seededRand) Read(p []byte) (int, error) {
 	for i := range p {
 		s.state = splitmix(s.state)
@@ -82,7 +87,11 @@ func genFileSpec(r *Rng, types []string, allowRef bool, maxN int) FileSpec {
 		fs.N = r.Range(0, 4)
 	}
 	d := typeByName(fs.Type)
-	if d.RefOnly || (allowRef && r.P(1, 3)) {
+	// Types with multi-entry maps are always written by the reference writer
+	// (sorted keys): the library's encoder emits map entries in Go's random
+	// iteration order, which has no seam, so its output for such values is
+	// not a function of the plan.
+	if d.RefOnly || (allowRef && (d.HasMultiMap || r.P(1, 3))) {
 		fs.Writer = "ref"
 		if r.P(1, 4) {
 			fs.Codec = "none"
